@@ -1236,35 +1236,42 @@ def t_opt_load_siblings(facts, res, tier):
 # ----------------------------------------------------------------------------- C04 / C03 (zero page and constant offsets)
 
 
-@rule("T-ZP-OFFSET", floor=3,
-      text="in asm(), where an operand that can carry a constant offset (`name+k`, the Absolute kind) is given the 2-byte zero-page size, the "
-           "decision takes the offset into account: a variable at a constant zero-page address indexed past $FF (`char *const p = 0xf0; p[0x20]`) "
-           "is assembled in absolute mode (3 bytes)")
+@rule("T-ZP-OFFSET", floor=6,
+      text="in asm(), wherever an Absolute, AbsoluteX or AbsoluteY operand is given the 2-byte zero-page form (or refused because the zero-page form "
+           "is the only one the mnemonic has), the decision is taken on the operand's address - the zero-page predicate applied to the variable and "
+           "its offset - not on the memory class alone: a variable at a constant address, or indexed past $FF by a constant "
+           "(`char *const p = 0xf0; p[0x20]`, `const short TAB[4] = 0x1800; TAB[X]`), is assembled in absolute mode (3 bytes)")
 def t_zp_offset(facts, res, tier):
     import genmodel
     fn = facts.fn("asm", genmodel.GEN_QUAL)
-    arm = None
+    arms = {}
     for n in walk(fn["body"]):
         if n.get("k") == "match":
             for a in n["arms"]:
-                if re.match(r"^ExprType::Absolute\(", pat_text(a["pat"]).replace(" ", "")):
-                    arm = a
-    if arm is None:
+                m0 = re.match(r"^ExprType::(Absolute[XY]?)\(", pat_text(a["pat"]).replace(" ", ""))
+                if m0:
+                    arms[m0.group(1)] = a
+    if "Absolute" not in arms:
         raise AnchorMissing("asm(): arm for ExprType::Absolute not found")
     sites = 0
-    for n in walk(arm["body"]):
-        if n.get("k") != "if":
-            continue
-        ct = norm(n["cond"])
-        sets2 = any(x.get("k") == "assign" and root_name(x["l"]) == "nb_bytes" and x["r"].get("k") == "lit" and x["r"].get("v") == 2 for x in (n["then"].get("stmts", []) if n["then"].get("k") == "block" else []))
-        if not sets2 or "eropage" not in ct:
-            continue
-        sites += 1
-        key = "T-ZP-OFFSET:asm:%d" % sites
-        res.inst(key, True, {"condition": ct})
-        if not re.search(r"\boff(set)?\b", ct):
-            res.fail("T-ZP-OFFSET:asm:offset-ignored", facts.where(fn, n),
-                     "asm() gives an Absolute operand the zero-page size on `%s` alone: with a constant offset the address can leave the zero page "
-                     "(`p+32` with p = $F0 is $110) and the assembler emits one byte more than reported" % ct)
+    for kind, arm in sorted(arms.items()):
+        for n in walk(arm["body"]):
+            if n.get("k") != "if":
+                continue
+            ct = norm(n["cond"])
+            def sets2(b):
+                # nb_bytes = 2 somewhere in this branch (directly or in a nested match on the mnemonic)
+                return any(x.get("k") == "assign" and root_name(x["l"]) == "nb_bytes" and x["r"].get("k") == "lit" and x["r"].get("v") == 2 for x in walk(b))
+            unavailable = "Err" in norm(n["then"]) and "zeropage" in norm(n["then"]).lower()
+            if not (sets2(n["then"]) or unavailable) or "eropage" not in ct:
+                continue
+            sites += 1
+            key = "T-ZP-OFFSET:asm:%s:%d" % (kind, sites)
+            res.inst(key, True, {"arm": kind, "condition": ct, "decides": "addressing mode available" if unavailable and not sets2(n["then"]) else "2-byte form"})
+            if not re.search(r"\boff(set)?\b", ct):
+                res.fail("T-ZP-OFFSET:asm:%s:offset-ignored" % kind, facts.where(fn, n),
+                         "asm() decides between the zero-page and the absolute form of an %s operand on `%s` alone: the memory class says nothing about a "
+                         "variable at a constant address (`const short TAB[4] = 0x1800; TAB[X]` is absolute,X: 3 bytes), nor about a constant offset that "
+                         "leaves the page (`p+32` with p = $F0)" % (kind, ct))
     if sites == 0:
-        raise AnchorMissing("asm(): no zero-page size decision found in the Absolute arm")
+        raise AnchorMissing("asm(): no zero-page size decision found")
